@@ -48,7 +48,7 @@ REMOTE_KINDS = ('remote', 'rpath')
 DIRECT_KINDS = ('direct', 'direct_unix')
 FINE_KINDS = LOCAL_KINDS + REMOTE_KINDS
 
-PKT_NAMES = {90: 'open', 91: 'conf', 92: 'fail', 93: 'window', 94: 'data',
+PKT_NAMES = {90: 'open', 91: 'conf', 92: 'fail', 93: 'adjust', 94: 'data',
              95: 'xdata', 96: 'eof', 97: 'close', 98: 'request', 80: 'greq',
              81: 'gok', 82: 'gfail', 1: 'disconnect'}
 
@@ -61,6 +61,23 @@ def keys():
         _keys['user'] = asyncssh.generate_private_key('ssh-ed25519')
         _keys['ca'] = asyncssh.generate_private_key('ssh-ed25519')
     return _keys
+
+
+UNIT = 1024
+
+
+def force_window(conn, window, pktsize):
+    """Every forwarding channel this connection creates (opening or
+    accepting) advertises this window / maximum packet size - what the
+    window= / max_pktsize= arguments of create_connection(), create_server()
+    ... do, applied to the forward_*() helpers that do not expose them."""
+    o_tcp, o_unix = conn.create_tcp_channel, conn.create_unix_channel
+    conn.create_tcp_channel = \
+        lambda encoding=None, errors='strict', window_=None, max_pktsize=None: \
+        o_tcp(encoding, errors, window, pktsize)
+    conn.create_unix_channel = \
+        lambda encoding=None, errors='strict', window_=None, max_pktsize=None: \
+        o_unix(encoding, errors, window, pktsize)
 
 
 def unit_bytes(end, d, sizes):
@@ -213,7 +230,12 @@ def socks_request(kind, host, port):
 class World:
     def __init__(self, kind='local', keep_l=True, keep_r=True,
                  sizes=(1, 300, 5000), manual=True, server_cb=None,
-                 connect_l=True):
+                 connect_l=True, window=None):
+        # window: None (asyncssh defaults: 2 MiB / 32 KiB), k = k data units
+        # of UNIT bytes with max packet size UNIT (fine mode: one unit is one
+        # CHANNEL_DATA message), or (window bytes, max packet bytes)
+        self.window = (window * UNIT, UNIT) if isinstance(window, int) \
+            else window
         self.connect_l = connect_l
         self.kind = kind
         self.keep = {'L': keep_l, 'R': keep_r}
@@ -310,6 +332,9 @@ class World:
 
         loop.run_until_complete(go())
         loop.run_until_idle()
+        if self.window:
+            force_window(self.cconn, *self.window)
+            force_window(self.sconn, *self.window)
         self.ct = loop.net.all_transports[0]
         self.st = loop.net.all_transports[1]
         assert self.ct.protocol is self.cconn and self.st.protocol is self.sconn
@@ -680,10 +705,12 @@ def compare(got, want):
 
 
 def replay(steps, kind='local', keep_l=True, keep_r=True,
-           sizes=(1, 300, 5000), finish='close', cut_at=None):
+           sizes=(1, 300, 5000), finish='close', cut_at=None, window=None):
     """Fine replay of one behaviour: steps = [(lbl, S)], lbl/S of states
     2..n.  cut_at = k: after k steps the SSH connection is ended instead."""
-    w = World(kind, keep_l, keep_r, sizes, manual=True)
+    if isinstance(window, int):
+        sizes = (UNIT,)         # one data unit = one CHANNEL_DATA message
+    w = World(kind, keep_l, keep_r, sizes, manual=True, window=window)
     res = {'diverged': None, 'l1': [], 'script': [], 'steps': 0}
     w.start()
     try:
@@ -722,9 +749,10 @@ def replay(steps, kind='local', keep_l=True, keep_r=True,
 
 
 def replay_coarse(labels, kind='local', keep_l=True, keep_r=True,
-                  sizes=(1, 300, 5000), finish='close', chunk=None):
+                  sizes=(1, 300, 5000), finish='close', chunk=None,
+                  window=None):
     """Coarse replay: only application actions (and LSN), auto delivery."""
-    w = World(kind, keep_l, keep_r, sizes, manual=False)
+    w = World(kind, keep_l, keep_r, sizes, manual=False, window=window)
     res = {'diverged': None, 'l1': [], 'script': []}
     try:
         w.start()
@@ -1266,10 +1294,12 @@ def perm_case(row, cancel=False):
 # ======================================================================
 
 def run_labels(labels, kind='local', keep_l=True, keep_r=True,
-               sizes=(1, 300, 5000), finish='close'):
+               sizes=(1, 300, 5000), finish='close', window=None):
     """Fine-mode execution of a label list (no conformance): monitors only.
     Labels that are not possible in the reached state are skipped."""
-    w = World(kind, keep_l, keep_r, sizes, manual=True)
+    if isinstance(window, int):
+        sizes = (UNIT,)
+    w = World(kind, keep_l, keep_r, sizes, manual=True, window=window)
     res = {'l1': [], 'script': [], 'diverged': None}
     w.start()
     try:
@@ -2080,13 +2110,13 @@ class _NConn:
         self.t_close = {'L': None, 'R': None}
 
 
-def record_natural(seed, kind='local', nconn=1, mode='mixed'):
+def record_natural(seed, kind='local', nconn=1, mode='mixed', window=None):
     """One SSH connection with one forward listener of `kind`; nconn
     forwarded connections driven by independent tasks at their four ends.
     Returns dict(traces=[...], l1=[...], stats, loop_exceptions)."""
     import random
     rng = random.Random(seed)
-    w = World(kind, True, True, manual=False, connect_l=False)
+    w = World(kind, True, True, manual=False, connect_l=False, window=window)
     w.start()
     loop = w.loop
     remote = kind in REMOTE_KINDS
